@@ -538,8 +538,14 @@ func (r *PipelineRunner) startJobsOnWaitList(pipeline string) {
 		}
 
 		waitList = waitList[1:]
+		// Publish the shortened wait list before starting the job, since startJob will process the wait list itself
+		// if the job fails to start
+		r.waitListByPipeline[pipeline] = waitList
 
 		r.startJob(queuedJob)
+
+		// Continue with the current wait list (it could have been changed by startJob)
+		waitList = r.waitListByPipeline[pipeline]
 
 		log.
 			WithField("component", "runner").
